@@ -31,6 +31,7 @@
      - the fuel `fs_weight t` is sufficient for EVERY tree: the root type is the only unnormalised type string; every
        enqueued type is the Clean-ed "P/msg/C", which determines a line of an index file of the tree
        (C18_schema_get_schema_for_total has no hypothesis). *)
+From Mcap Require ConstsTie LayoutTie. (* regenerated ties to /repo's source that this property's model relies on *)
 From Coq Require Import List NArith ZArith Bool.
 From Coq.Strings Require Import Byte.
 From Coq.Strings Require String.
